@@ -47,7 +47,7 @@ def gen_parts(self, g, st, spec, allow_values=False):
     mark = V.fresh_mark()
     st2 = State(env=dict(st.env), pc=st.pc, heap=st.heap, old=st.old, nxt=st.nxt)
     st2.oldheap = st.oldheap
-    st2.decided = getattr(st, "decided", {})
+    st2.plan, st2.plan_pos = getattr(st, "plan", []), getattr(st, "plan_pos", 0)
     npc = len(st.pc)
     nobl = len(self.obls)
     self.assign(comp.target, desc.item(k), st2, comp)
